@@ -33,7 +33,9 @@ RESP, RESP_MOD = "resp", "Model.RespRun"
 GROW, GROW_MOD = "fetchgrow", "Model.FetchGrow"
 
 # work bounds (implementation side).  n = input bytes + bytes returned by the decompressor
-LINES_BASE, LINES_PER_BYTE = 400, 40          # executed afkak source lines
+LINES_BASE, LINES_PER_BYTE = 400, 8           # executed afkak source lines (worst ratio on the unchanged tree: 2.6/byte)
+COPY_BASE, COPY_PER_BYTE = 4096, 12           # bytes copied out of the input by slicing (unchanged tree: about 3/byte)
+SCALE_RATIO = 7.0                             # wall time of a 4x larger input / wall time of the input (linear: 4, quadratic: 16)
 MEM_BASE, MEM_PER_BYTE = 256 * 1024, 512      # tracemalloc peak above the level before the call
 TIME_BASE, TIME_PER_BYTE = 0.25, 50e-6        # seconds (generous: other builds share the machine)
 
@@ -171,6 +173,37 @@ class WorkBudgetExceeded(BaseException):
     pass
 
 
+class CountingBytes(bytes):
+    """a bytes object that counts how many bytes the code copies out of it (and out of its slices) by indexing with a
+    slice: the deterministic measure of byte-level work (re-slicing the remaining buffer on every iteration is
+    quadratic in it while executing the same source lines)"""
+    copied = [0]
+
+    def __getitem__(self, k):
+        r = bytes.__getitem__(self, k)
+        if isinstance(k, slice):
+            CountingBytes.copied[0] += len(r)
+            return CountingBytes(r)
+        return r
+
+
+def copied_bytes(f, data):
+    """(result, bytes copied by slicing) of f(CountingBytes(data))"""
+    CountingBytes.copied[0] = 0
+    res = f(CountingBytes(data))
+    return res, CountingBytes.copied[0]
+
+
+def best_time(f, reps):
+    best = None
+    for _ in range(reps):
+        t0 = time.perf_counter()
+        f()
+        dt = time.perf_counter() - t0
+        best = dt if best is None or dt < best else best
+    return best
+
+
 class Meter(object):
     """counts executed source lines of files under <repo>/afkak while active; aborts the call when over budget"""
 
@@ -302,6 +335,48 @@ def count_bombs():
         yield "produce", 0, i32(1) + i32(n), "negative_count"
         yield "metadata", 0, i32(1) + i32(n) + i32(0), "negative_count"
         yield "metadata", 0, i32(1) + i32(0) + i32(1) + i16(0) + s(b"t") + i32(1) + i16(0) + i32(0) + i32(0) + i32(n), "negative_replicas"
+
+
+def run_decoder(api, ver, data):
+    """the REAL decoder run to completion on `data` (any bytes-like), results discarded; exceptions propagate"""
+    from afkak.kafkacodec import KafkaCodec as K
+    if api == "msgset":
+        for _ in K._decode_message_set_iter(data):
+            pass
+    elif api == "fetch":
+        for x in K.decode_fetch_response(data, ver):
+            for _ in x.messages:
+                pass
+    elif api == "produce":
+        for _ in K.decode_produce_response(data, ver):
+            pass
+    elif api in ("offsets", "commit", "ofetch"):
+        f = {"offsets": K.decode_offset_response, "commit": K.decode_offset_commit_response, "ofetch": K.decode_offset_fetch_response}[api]
+        for _ in f(data):
+            pass
+    else:
+        {"metadata": K.decode_metadata_response, "apiversions": K.decode_api_versions_response, "join": K.decode_join_group_response,
+         "subscription": K.decode_join_group_protocol_metadata, "assignment": K.decode_sync_group_member_assignment,
+         "coordinator": K.decode_consumermetadata_response, "sync": K.decode_sync_group_response,
+         "heartbeat": K.decode_heartbeat_response, "leave": K.decode_leave_group_response, "corr": K.get_response_correlation_id}[api](data)
+
+
+def scaling_inputs(R, n):
+    """valid inputs whose size grows linearly with n (n = number of repeated small items); yields (api, ver, bytes)"""
+    tiny = lambda k: CL.raw_set([(i, CL.raw_msg(i % 2, 0, None, b"", 3)) for i in range(k)])
+    yield "msgset", 0, tiny(n)
+    yield "msgset", 0, CL.raw_set([(n - 1, CL.raw_msg(0, 1, None, CL.gz(tiny(n))))])          # the same inside one wrapper
+    yield "fetch", 0, R.spec_bytes("fetch", (1, 0, [(b"t", [(p, 0, 5, tiny(20)) for p in range(n // 20)])]), 0)
+    yield "produce", 2, R.spec_bytes("produce", (2, [(b"t%d" % t, [(p, 0, p, p) for p in range(50)]) for t in range(n // 50)], 7), 2)
+    yield "metadata", 0, R.spec_bytes("metadata", (9, [(i, b"host", 9092) for i in range(min(n // 50, 1024))],
+                                                   [(0, b"t%d" % t, [(0, p, 1, [1, 2, 3], [1, 2]) for p in range(20)]) for t in range(n // 40)]), 0)
+    yield "offsets", 0, R.spec_bytes("offsets", (1, [(b"t", [(p, 0, list(range(40))) for p in range(n // 20)])]), 0)
+    yield "commit", 0, R.spec_bytes("commit", (1, [(b"t%d" % t, [(p, 0) for p in range(40)]) for t in range(n // 20)]), 0)
+    yield "ofetch", 0, R.spec_bytes("ofetch", (1, [(b"t%d" % t, [(p, p, b"md", 0) for p in range(40)]) for t in range(n // 30)]), 0)
+    yield "apiversions", 0, R.spec_bytes("apiversions", (1, 0, [(k % 30000, 0, 9) for k in range(n * 2)]), 0)
+    yield "join", 0, R.spec_bytes("join", (1, 0, 3, b"p", b"l", b"m", [(b"member-%d" % i, b"x" * 20) for i in range(n // 2)]), 0)
+    yield "subscription", 0, R.spec_bytes("subscription", (0, [b"topic-%d" % i for i in range(n)], b"ud"), 0)
+    yield "assignment", 0, R.spec_bytes("assignment", (0, [(b"t%d" % t, list(range(30))) for t in range(n // 10)], None), 0)
 
 
 # ====================================================================== part E: the consumer
@@ -458,6 +533,8 @@ def run(ck):
             suppressed[0] += 1
             return
         r = {"kind": kind, "what": what, "replay_op": op, "data_hex": bytes(data).hex() if data is not None else None}
+        if extra and len(str(extra.get("original_hex", ""))) > 400000:      # keep replay files small: the damaged set is enough
+            extra = dict(extra, original_hex=None, original_omitted="larger than 200 kB")
         r.update(extra or {})
         ck.violation(r, no_input=no_input)
 
@@ -495,9 +572,12 @@ def run(ck):
     nflip = nburst = 0
     region_hist = {}
 
-    def corrupt_case(ents, exp, vi, damaged, region, what):
+    def corrupt_case(ents, exp, vi, damaged, region, what, to_model=True):
         tr, orc, msgs, outcome = decode_impl(damaged)
-        add_set("corrupt_" + region, damaged, tr, orc)
+        if to_model:
+            add_set("corrupt_" + region, damaged, tr, orc)
+        else:
+            ck.hist("msgset/corrupt_%s(large, implementation only) -> %s" % (region, err_name(tr[-1])))
         region_hist[(region, err_name(outcome))] = region_hist.get((region, err_name(outcome)), 0) + 1
         bad = corruption_verdict(region, vi, exp, msgs, outcome)
         if bad:
@@ -558,6 +638,48 @@ def run(ck):
             new = CL.rbytes(rnd, 4)
             if new != data[start + 12:start + 16]:
                 corrupt_case(ents, exp, vi, data[:start + 12] + new + data[start + 16:], "crc", "CRC field replaced")
+    # ---- large messages: a check that is skipped or shortened for big payloads must not go unnoticed.
+    # values of 5000 / 70000 / 2^20 bytes, plain and as the payload of a gzip wrapper; damage at the very start, the
+    # middle and the very end of the checksummed bytes, in the CRC field, plus random flips and bursts.
+    # The model runs the bitwise CRC: only the 5000-byte cases are also given to it.
+    nlarge = 0
+    sizes = [5000, 70000, 1 << 20] if not thorough else [4097, 5000, 9000, 70000, 300000, 1 << 20, 3 << 20]
+    for size in sizes:
+        for kind in ("plain0", "plain1", "wrapper"):
+            before, after = gen_plain(rnd, 6), gen_plain(rnd, 6)
+            if kind == "wrapper":
+                inner = [Plain(rnd.choice([0, 1]), 0, b"k", CL.rbytes(rnd, size // 2), 9), Plain(0, 0, None, CL.rbytes(rnd, size // 2), 9)]
+                o, raw, e = wrapper_entry(rnd, 12, rnd.choice([0, 1]), inner)
+                ents, exp = [(10, before.raw()), (o, raw), (13, after.raw())], [[(10, before.fields())], e, [(13, after.fields())]]
+            else:
+                m = Plain(int(kind[-1]), 0, CL.gen_ob(rnd, 8), CL.rbytes(rnd, size), 77)
+                ents, exp = [(10, before.raw()), (11, m.raw()), (12, after.raw())], [[(10, before.fields())], [(11, m.fields())], [(12, after.fields())]]
+            data = CL.raw_set(ents)
+            vi, start = 1, 12 + len(ents[0][1])
+            vlen = 12 + len(ents[1][1])
+            body0, blen = start + 16, vlen - 16
+            to_model = size <= 5000 and kind != "wrapper"
+            tr0, orc0, msgs0, out0 = decode_impl(data)
+            if msgs0 != [x for e in exp for x in e] or out0 != 0:
+                violation("valid message set not decoded to what was encoded", "large base set (%s, %d bytes)" % (kind, size), data if len(data) < 20000 else None)
+                continue
+            nb = blen * 8
+            picks = [0, 1, 7, 8, 15, nb // 2, nb // 2 + 3, nb - 16, nb - 9, nb - 8, nb - 1] + [rnd.randrange(nb) for _ in range(6 if not thorough else 40)]
+            # every 4096-byte boundary +-1 byte (block-wise or size-limited checksumming)
+            picks += [8 * (4096 * j + d) for j in range(1, min(blen // 4096, 3) + 1) for d in (-17, -1, 0) if 0 <= 8 * (4096 * j + d) < nb]
+            for bit in picks:
+                corrupt_case(ents, exp, vi, apply_bits(data, body0, [bit]), "body", "bit %d of the %d checksummed bytes flipped (%s)" % (bit, blen, kind), to_model)
+                nlarge += 1
+            for _ in range(4 if not thorough else 20):
+                pat = burst_pattern(rnd, nb)
+                corrupt_case(ents, exp, vi, apply_bits(data, body0, pat), "body", "burst spanning %d bit(s) at bit %d of %d bytes (%s)" % (pat[-1] - pat[0] + 1, pat[0], blen, kind), to_model)
+                nlarge += 1
+            pat = [nb - 32 + j for j in (0, 5, 31)]          # a burst over the last 4 bytes
+            corrupt_case(ents, exp, vi, apply_bits(data, body0, pat), "body", "burst over the last 32 bits (%s, %d bytes)" % (kind, blen), to_model)
+            for bit in (0, 13, 31):
+                corrupt_case(ents, exp, vi, apply_bits(data, start + 12, [bit]), "crc", "bit %d of the CRC field of a %d-byte message flipped (%s)" % (bit, blen, kind), to_model)
+                nlarge += 1
+    ck.hist("large_message_damage_cases", nlarge)
     ck.hist("single_bit_flips", nflip)
     ck.hist("bursts", nburst)
     for (region, o), c in sorted(region_hist.items()):
@@ -664,9 +786,25 @@ def run(ck):
             nmal += 1
         # correlation id reader: same inputs
         measured("corr", 0, CL.rbytes(rnd, rnd.randint(0, 6)), "random_bytes")
+    bomb_groups = {}
     for api, ver, data, label in count_bombs():
         measured(api, ver, data, label)
         nmal += 1
+        # the same bytes with a bigger claimed count must cost exactly the same number of executed lines
+        key = data
+        for nn in (10 ** 7, 2 ** 31 - 1, 10 ** 6):
+            key = key.replace(struct.pack(">i", nn), b"####")
+        bomb_groups.setdefault((api, ver, label, key), []).append((meter.lines, data))
+    ngroups = 0
+    for (api, ver, label, key), members in bomb_groups.items():
+        if len(members) > 1:
+            ngroups += 1
+            if len(set(l for l, _ in members)) > 1:
+                worst_l, worst_d = max(members)
+                violation("decoding work not proportional to the input: hostile length/count fields bought work",
+                          "the same bytes cost %r executed lines depending only on the claimed count [%s %s]" % (sorted(l for l, _ in members), api, label),
+                          worst_d, {"api": api, "ver": ver, "label": label, "lines_by_count": sorted(l for l, _ in members)}, op="work")
+    ck.hist("count_bomb_groups_same_cost_checked", ngroups)
     # fetch responses carrying damaged / hostile record sets, null record sets, and sets with hostile entry sizes
     for label, data in CL.gen_decode_inputs(rnd, 1 if not thorough else 3):
         if label.startswith(("hostile", "short_message", "random", "mutated", "gzip_value", "bad_magic", "codec_bits", "tail", "burst", "bitflip")):
@@ -713,6 +851,45 @@ def run(ck):
     ck.cov["work_monitor"] = {"bounds": {"lines": [LINES_BASE, LINES_PER_BYTE], "tracemalloc_peak": [MEM_BASE, MEM_PER_BYTE], "seconds": [TIME_BASE, TIME_PER_BYTE]},
                               "worst_observed": {k: (round(v, 3) if isinstance(v, float) else v) for k, v in worst.items()},
                               "unit": "per byte of (input + decompressor output); ratios taken over inputs of >= 16 bytes"}
+
+    # ============================================================ F. scaling: byte-level work must be linear too
+    # (a) deterministic: bytes copied out of the input by slicing (CountingBytes) <= COPY_BASE + COPY_PER_BYTE * len, on
+    #     inputs of two sizes for every decoder with a loop; (b) wall time, untraced, best of several runs: a 4 times
+    #     larger input may take at most SCALE_RATIO times as long (the set decoder on 0.5 MiB / 2 MiB; thorough: all).
+    scaling = {"copied_per_byte": {}, "time_ratio_4x": {}}
+    for n in ((2000, 8000) if not thorough else (2000, 8000, 40000)):
+        for api, ver, data in scaling_inputs(R, n):
+            try:
+                _, copied = copied_bytes(lambda d: run_decoder(api, ver, d), data)
+            except Exception as e:  # noqa
+                violation("valid input not decoded", "scaling input %s n=%d: %r" % (api, n, e), data if len(data) < 100000 else None, {"api": api, "ver": ver}, op="work")
+                continue
+            k = "%s/%d" % (api, n)
+            scaling["copied_per_byte"][k] = max(scaling["copied_per_byte"].get(k, 0), round(copied / len(data), 2))
+            if copied > COPY_BASE + COPY_PER_BYTE * len(data):
+                violation("decoding work not proportional to the input: bytes copied grow faster than the input",
+                          "%s copied %d bytes by slicing while decoding %d input bytes (bound %d + %d/byte): the remaining buffer is copied again and again"
+                          % (api, copied, len(data), COPY_BASE, COPY_PER_BYTE), data if len(data) < 300000 else None,
+                          {"api": api, "ver": ver, "copied": copied, "input_bytes": len(data), "scaling_n": n}, op="scaling")
+    timed = [("msgset", 0, 20000)] if not thorough else [(a, v, 10000) for a, v, _ in scaling_inputs(R, 100)]
+    seen = {}
+    for api, ver, n in timed:
+        idx = seen[api] = seen.get(api, -1) + 1          # msgset occurs twice in scaling_inputs (plain, wrapped)
+        small = [d for a, v, d in scaling_inputs(R, n) if a == api][idx]
+        large = [d for a, v, d in scaling_inputs(R, 4 * n) if a == api][idx]
+        ratio = None
+        for reps in (3, 7):                                # a second, longer look before raising the alarm
+            t1 = best_time(lambda: run_decoder(api, ver, small), reps)
+            t4 = best_time(lambda: run_decoder(api, ver, large), reps)
+            ratio = t4 / max(t1, 1e-6) * (4.0 * len(small) / len(large))      # normalised to exactly 4x the bytes
+            if ratio <= SCALE_RATIO:
+                break
+        scaling["time_ratio_4x"]["%s#%d/%d->%d bytes" % (api, idx, len(small), len(large))] = round(ratio, 2)
+        if ratio > SCALE_RATIO:
+            violation("decoding work not proportional to the input: time grows faster than the input",
+                      "%s: %d bytes in %.3f s but %d bytes in %.3f s (x%.1f for 4x the input, bound x%.1f)" % (api, len(small), t1, len(large), t4, ratio, SCALE_RATIO),
+                      None, {"api": api, "ver": ver, "scaling_n": n, "seconds_small": t1, "seconds_large": t4}, op="scaling")
+    ck.cov["scaling_monitor"] = scaling
 
     # ============================================================ E. the consumer
     grow_cases, grow_impl, grow_meta = [], [], []
